@@ -81,6 +81,71 @@ example : (⟨"broken", [Gen.Exc.builtins_RecursionError],
      [⟨[Gen.Exc.easynetwork_exceptions_DeserializeError], .convert Gen.Exc.easynetwork_exceptions_DatagramProtocolParseError⟩]]⟩
     : Pipeline Gen.Exc).ok Gen.sub Gen.parseErrors = false := by decide +kernel
 
+-- ==== BEGIN generic framers ====
+section GenericFramers
+open GenericFr
+
+/-- **C06, generic framers: progress.**  For a loader each of whose verdicts consumes at least one byte (`Progress`)
+    and only bytes that were there (`ok_le`/`bad_le`), every delivered packet, parse error and size error leaves strictly
+    fewer bytes than were looked at — file-based framer (with its size check) and compressor framer alike (a
+    decompressor error drops everything) — hence a receive loop that skips errors performs at most |stream|
+    iterations (`C06_items_bounded` applied to the limit-free spec). -/
+theorem C06_generic_progress (load : Bytes → LoadRes) (S : Stable load) (P : Progress load) (limit : Nat) (b : Bytes) :
+    (∀ d r, spec load limit b = .done d r → r.length < b.length) ∧
+    (∀ r, spec load limit b = .fail r → r.length < b.length) ∧
+    (∀ d r, specU load b = .done d r → r.length < b.length) ∧
+    (decodeW (specU load) b).2.length ≤ b.length := by
+  have L := specU_laws load S P
+  refine ⟨?_, ?_, L.progress_done b, C06_items_bounded L b⟩
+  · intro d r h
+    unfold spec at h
+    split at h
+    · cases h
+    · exact L.progress_done b d r h
+  · intro r h
+    unfold spec at h
+    split at h
+    · rename_i hl
+      injection h with h; subst h; simp; omega
+    · exact absurd h (by
+        unfold specU
+        cases load b <;> intro hc <;> cases hc)
+
+/-- the compressor framer: a decompressor error leaves nothing behind (progress whenever `b` is not empty), and an
+    end-of-stream after `k ≥ 1` bytes leaves `|b| - k` -/
+theorem C06_generic_compressor_progress (dec : Bytes → DecRes) (b : Bytes) :
+    (dec b = .corrupt → specU (loadOf dec) b = .done (badTag :: b) []) ∧
+    (∀ k ok, dec b = .fin k ok → 0 < k → k ≤ b.length →
+      ∃ d r, specU (loadOf dec) b = .done d r ∧ r.length < b.length) := by
+  constructor
+  · intro h
+    unfold specU loadOf
+    simp [h]
+  · intro k ok h hk hle
+    unfold specU loadOf
+    cases ok with
+    | true => rw [h]; exact ⟨_, _, rfl, by simp; omega⟩
+    | false => rw [h]; exact ⟨_, _, rfl, by simp; omega⟩
+
+/-- **What happens without `Progress`**: a loader that reports an expected error (or a packet) having consumed NOTHING
+    makes the framer hand back the whole buffer as remainder — the same error (packet) is then delivered again on every
+    `next(None)`, forever.  The real code does exactly this (docs/GENERICFR.md, "zero consumption"): `Progress` is a
+    genuine requirement on `load_from_file`, not a proof artefact. -/
+theorem C06_generic_zero_consumption_stalls (load : Bytes → LoadRes) (limit : Nat) (b : Bytes) (hb : b.length ≤ limit) :
+    (load b = .bad 0 → spec load limit b = .done [badTag] b) ∧
+    (load b = .ok 0 → spec load limit b = .done [okTag] b) := by
+  rw [spec_eq_specU load limit b hb]
+  constructor <;> intro h <;> unfold specU <;> rw [h] <;> simp
+
+/-- non-vacuity: the toy loader meets the hypotheses; a bad header costs one byte, a size error drops everything -/
+example : Stable toyLoad ∧ Progress toyLoad ∧
+    spec toyLoad 8 [255, 1, 9] = .done [badTag, 255] [1, 9] ∧
+    spec toyLoad 4 [200, 1, 2, 3, 4] = .fail [] :=
+  ⟨toyLoad_stable, toyLoad_progress, by decide +kernel, by decide +kernel⟩
+
+end GenericFramers
+-- ==== END generic framers ====
+
 end EasyNet
 
 -- ==== BEGIN raw JSON framer ====
